@@ -922,6 +922,22 @@ func checkManualLockRegions(c *report.Ctx, sites []panicSite) {
 					}
 				} else if strings.Contains(an.Callee(call), "logrus.Panic") {
 					bad = append(bad, an.Callee(call))
+				} else if call.Common().IsInvoke() {
+					// a method of a repository interface: whatever implementation it may dispatch to
+					if n := c.P.CallGraph().Nodes[f]; n != nil {
+						for _, e := range n.Out {
+							g := e.Callee.Func
+							if e.Site != call || g == nil || g.Pkg == nil || !strings.HasPrefix(g.Pkg.Pkg.Path(), "go.amzn.com") {
+								continue
+							}
+							for h := range reachableFrom(c, g) {
+								if panicFns[h] {
+									bad = append(bad, an.Callee(call)+" -> "+an.FuncName(h))
+									break
+								}
+							}
+						}
+					}
 				}
 			}
 		})
